@@ -94,6 +94,7 @@ struct Value {
             char ch = args_string[i - (i == args_len)];
             if (ch == '[') {
                 // start counting starting brackets, and stop when we hit depth 0
+                const size_t bracket_start = i;
                 size_t depth = 1;
                 while ((++i) <= args_len && depth > 0) {
                     ch = args_string[i];
@@ -102,6 +103,12 @@ struct Value {
                 if (depth > 0) {
                     fprintf(stderr, "parse error, unclosed [bracket (expected: ']') in \"%s\"\n", args_string);
                     exit(1);
+                }
+                // a bracket that opens in the middle of a token belongs to it - fun([sub script]) - and the token goes on
+                // after the closing bracket (up to the next separator), instead of being cut off before its ")"
+                if (bracket_start > start && i < args_len) {
+                    --i;
+                    continue;
                 }
             }
             if (i == args_len || (ch == ']' || ch == ' ' || ch == '\t' || ch == '\n' || ch == '\r' || ch == '#')) {
